@@ -282,6 +282,10 @@ def coordinator(prop, tier, seed, nshards=None):
     known_by_mech = {k["mechanism"]: k for k in known}
     lines, new_viol, known_seen = [], 0, {}
     replay_dir = os.path.join(VERIF_ROOT, "replay", prop)
+    if os.path.isdir(replay_dir):
+        for fn in os.listdir(replay_dir):
+            if fn.endswith(".json"):
+                os.unlink(os.path.join(replay_dir, fn))
     for mech in sorted(violations):
         ent = violations[mech]
         if mech in known_by_mech:
